@@ -30,7 +30,7 @@ def commit_for(prop, sig, what):
 
 added = 0
 for path in sorted(glob.glob(os.path.join(ROOT, "inbox", "C*.json"))):
-    prop = os.path.basename(path)[:-5]
+    prop = os.path.basename(path)[:3]
     for e in json.load(open(path)):
         key = (prop, e["signature"])
         if key in have:
